@@ -9,6 +9,115 @@ ghost("OFFERS", "seq_ev")       # destination invocations
 ghost("LOG", "seq_ev")          # ILogger.write calls
 ghost("IO", "seq_ev")           # file write/flush events
 ghost("THREADS", "seq_ev")
+ghost("NTOP", "refint")
+ghost("LASTARGS", "seq_val")    # engine-private: positional arguments / keywords / callee of the most recent opaque call
+ghost("LASTKWDOM", "setval")
+ghost("LASTKWMAP", "mapval")
+ghost("LASTF", "val")       # calls of each opaque callable made by Eliot frames (not by user code re-entering)
 
 # ---------------------------------------------------------------- field types (class -> attr -> hint)
 fields("TaskLevel", _level="list[int]")
+fields("Action", _successFields="dict", _logger="role:ILogger", _task_level="TaskLevel", _last_child="Opt[TaskLevel]",
+       _identification="dict", _serializers="Opt[_ActionSerializers]", _finished="bool", _parent_token="Any")
+fields("_ActionSerializers", start="Any", success="Any", failure="Any")
+global_hint("eliot/_action.py:_ACTION_CONTEXT", "Opt[Action]")
+global_hint("eliot/_output.py:_DEFAULT_LOGGER", "role:ILogger")
+
+# ---------------------------------------------------------------- spec functions
+specfun("level_of", ["tl"], "seq(tl._level)")
+specfun("lvl", ["a"], "seq(a._task_level._level)")
+specfun("pos", ["a"], "ite(a._last_child is None, 0, ival(last(typed(a._last_child, 'TaskLevel')._level)))")
+specfun("uu", ["a"], "dget(a._identification, 'task_uuid')")
+specfun("atype", ["a"], "dget(a._identification, 'action_type')")
+specfun("curact", [], "ite(CTX[me] == UNSET, None, CTX[me])")
+specfun("pos_ok", ["a"],
+        "implies(a._last_child is not None,"
+        "        level_of(typed(a._last_child, 'TaskLevel')) == lvl(a) + [pos(a)] and pos(a) >= 1"
+        "        and ref(typed(a._last_child, 'TaskLevel')._level) != ref(a._task_level._level))")
+specfun("rep_ok", ["a"],
+        "pos_ok(a) and dom(a._identification) == setof('task_uuid', 'action_type')"
+        " and ref(a._identification) != ref(a._successFields)")
+specfun("cur_ok", [], "implies(curact() is not None, pos_ok(typed(curact(), 'Action')))")
+specfun("is_report", ["ev"],
+        "ev.tag == 'write' and ev.d is None and (ev.e == 'eliot:destination_failure' or ev.e == 'eliot:serialization_failure'"
+        " or ev.e == 'eliot:traceback')")
+specfun("write_ev", ["logger", "d", "ser"],
+        "Ev('write', logger, d, ser, dget(d, 'action_status'), dget(d, 'message_type'), dget(d, 'task_level'), dget(d, 'task_uuid'))")
+
+def _all_reports_axioms(eng):
+    import z3
+    from pyvc.sorts import SeqE, Ev, Val
+    from pyvc.models import ALL_REPORTS
+    a, b = z3.Consts("ar!a ar!b", SeqE)
+    e = z3.Const("ar!e", Ev)
+    def s(x):
+        return Val.StrV(z3.StringVal(x))
+    is_rep = z3.And(Ev.tag(e) == z3.StringVal("write"), Ev.d(e) == Val.NoneV,
+                    z3.Or(Ev.e(e) == s("eliot:destination_failure"), Ev.e(e) == s("eliot:serialization_failure"),
+                          Ev.e(e) == s("eliot:traceback")))
+    return [ALL_REPORTS(z3.Empty(SeqE)),
+            z3.ForAll([a, b], ALL_REPORTS(z3.Concat(a, b)) == z3.And(ALL_REPORTS(a), ALL_REPORTS(b)),
+                      patterns=[ALL_REPORTS(z3.Concat(a, b))]),
+            z3.ForAll([e], ALL_REPORTS(z3.Unit(e)) == is_rep, patterns=[ALL_REPORTS(z3.Unit(e))])]
+
+axiom("all_reports", _all_reports_axioms,
+      "definition of the spec predicate all_reports over event sequences (empty / concatenation / unit)")
+
+# ---------------------------------------------------------------- interface models (assumptions about code outside /repo,
+# or the documented contract of a duck-typed collaborator; implementations inside /repo get refinement obligations)
+contract("iface::ILogger.write", params=["self", "dictionary", "serializer"], defaults={"serializer": None},
+         types={"dictionary": "dict"}, returns="none",
+         notes="ILogger.write(dictionary, serializer): records one write; does not mutate the dictionary; never raises; "
+               "any further writes it causes are failure reports (destination_failure / serialization_failure / traceback), "
+               "which may consume positions of the current action only",
+         requires=[("current-action-consistent", "cur_ok()")],
+         modifies=["#LOG", "#OFFERS", "#CALLS", "#IO", "field:_last_child"],
+         ghosts={"R": "seqe"},
+         ensures=[("one-write-then-only-reports", "LOG == old(LOG) + [write_ev(self, dictionary, serializer)] + R and all_reports(R)"),
+                  ("dictionary-not-mutated", "dict_of(dictionary) == old(dict_of(dictionary))"),
+                  ("positions-only-in-current-action", "only_changed('_last_child', curact())"),
+                  ("current-action-advances", "implies(curact() is not None, pos_ok(typed(curact(), 'Action')) and pos(typed(curact(), 'Action')) >= old(pos(typed(curact(), 'Action'))))"),
+                  ("channels-grow", "prefix_of(old(OFFERS), OFFERS) and prefix_of(old(CALLS), CALLS) and prefix_of(old(IO), IO)")])
+
+RELY = [("context-restored", "CTX[me] == old(CTX[me])"),
+        ("tokens-untouched", "unchanged_old('tok_old') and unchanged_old('tok_used') and unchanged_old('tok_ctx')"),
+        ("other-contexts-untouched", "forall(lambda c: implies(c != me, CTX[c] == old(CTX[c])), 'int')")]
+
+contract("iface::UserCode.__call__", returns="Any",
+         notes="application code run inside an action (f of Action.run, a wrapped function): may do anything, including "
+               "calling the Eliot API, but like every Eliot construct it leaves the current action as it found it and never "
+               "touches context tokens it does not own; may raise any BaseException",
+         modifies=["*"],
+         ensures=RELY + [("recorded", "last(CALLS) == Ev('ret', self, args, kwargs, result, old(CTX[me]))")],
+         raises=[{"cls": "BaseException", "ensures": RELY + [("recorded", "last(CALLS) == Ev('exc', self, args, kwargs, exc, old(CTX[me]))")]}])
+
+contract("iface::WithBody.__call__", returns="Any",
+         notes="the body of a `with` block around a @contextmanager: arbitrary application code (same rely as UserCode); "
+               "it ends normally or with any BaseException thrown at the yield (GeneratorExit for close())",
+         modifies=["*"],
+         ensures=RELY,
+         raises=[{"cls": "BaseException", "ensures": RELY + [("recorded", "last(CALLS) == Ev('thrown', self, args, kwargs, exc)")]}])
+
+contract("iface::Str.str", params=["self"], returns="str",
+         notes="__str__ of an arbitrary object: returns a str or raises any BaseException; does not touch Eliot's objects",
+         modifies=["#CALLS"], ensures=[("calls-grow", "prefix_of(old(CALLS), CALLS)")],
+         raises=[{"cls": "BaseException", "ensures": [("calls-grow", "prefix_of(old(CALLS), CALLS)")]}])
+contract("iface::Str.repr", params=["self"], returns="str",
+         notes="__repr__ of an arbitrary object: returns a str or raises any BaseException; does not touch Eliot's objects",
+         modifies=["#CALLS"], ensures=[("calls-grow", "prefix_of(old(CALLS), CALLS)")],
+         raises=[{"cls": "BaseException", "ensures": [("calls-grow", "prefix_of(old(CALLS), CALLS)")]}])
+
+contract("iface::Opaque.__call__", returns="Any",
+         notes="an arbitrary callable handed to Eliot (no role known): returns anything or raises any BaseException; "
+               "does not touch Eliot's objects",
+         modifies=["#CALLS"],
+         ensures=[("recorded", "CALLS == old(CALLS) + [Ev('ret', self, args, kwargs, result)]")],
+         raises=[{"cls": "BaseException", "ensures": [("recorded", "CALLS == old(CALLS) + [Ev('exc', self, args, kwargs, exc)]")]}])
+
+contract("iface::Extractor.__call__", params=["self", "exception"], returns="dict",
+         notes="a registered exception extractor: returns a dict of its own (not one of Eliot's internal dicts) or raises any "
+               "BaseException; does not touch Eliot's objects",
+         modifies=["#CALLS"],
+         ensures=[("recorded", "CALLS == old(CALLS) + [Ev('ret', self, exception, None, result)]"),
+                  ("result-is-its-own", "fresh(result) or forall(lambda a: box(result) != a._identification and box(result) != a._successFields, 'ref:obj')")],
+         raises=[{"cls": "BaseException", "ensures": [("recorded", "CALLS == old(CALLS) + [Ev('exc', self, exception, None, exc)]")]}])
